@@ -93,6 +93,10 @@ add("F9", "C10", "fixed", "enum value `self` / `self_` / `Self` under normalizat
     commit="8635165", also=["C11"], engine="B-generated")
 add("F15", "C11", "fixed", "@oneOf member named `Self` was serialised as `Self_` (rename decided on the unescaped variant name)",
     commit="024d01b", also=["C04"], engine="B-generated")
+
+add("F12", "C16", "fixed", "an absent nullable ID key failed with `missing field` (deserialize_with disables serde's implicit Option default)",
+    commit="b88631d", document="query Q { me { id best { id } } node { __typename id } }\n",
+    vectors={"C16": [resp("w1", "Q", {"me": {"id": 5}, "node": None}, {"me": {"id": "5"}})]})
 out = os.path.join(os.path.dirname(os.path.dirname(os.path.abspath(__file__))), "known_findings.json")
 with open(out, "w") as f:
     json.dump({"comment": "written by tools/mk_known.py at authoring time; never written by a check", "findings": F}, f, indent=1)
